@@ -7,7 +7,7 @@
   All theorems quantify over every batch shape (any rank, any sizes incl. 0), every feature shape and every
   index of the stated grammar; none is a finite enumeration.
 -/
-import TdVerif.Lemmas.C03NamesAdv
+import TdVerif.Lemmas.C03InB
 
 namespace TdVerif.Props.C03
 open TdVerif.C03 TdVerif.C03.TorchSpec TdVerif.C03.Td
@@ -377,6 +377,20 @@ theorem expand_left_is_torch_broadcast (out pre v : Shape) (c : List Nat) (hlen 
     (valueCoord (pre ++ v) out c).drop pre.length = valueCoord v out c :=
   valueCoord_expand_left out pre v c hlen
 
+/-- **Writes through an index with an Ellipsis or through a bare index** reduce to writes through an Ellipsis-free tuple — so
+`setitem_tuple_accepts` / `_rejects`, `setitem_frame` / `_hit` and the collection theorems cover every index form of the grammar:
+`td[pre, ..., post] = v` is `td[pre, :, …, :, post] = v` with exactly the number of `:` torch lets the Ellipsis stand for (and raises,
+like reads, when the index names more dims than the batch has); `td[x] = v` is `td[(x,)] = v`. -/
+theorem setitem_index_forms (td : TD) (pre post : List Ix) (x : Ix) (v : Shape) (isDict : Bool) (vb : Shape) (entries : List VEntry)
+    (hpre : noEll pre = true) (hpost : noEll post = true) (hs : specified pre + specified post ≤ td.bs.length) (hx : x ≠ Ix.ell) :
+    setitem td (.tuple (pre ++ Ix.ell :: post)) v =
+      setitem td (.tuple (pre ++ List.replicate (td.bs.length - specified pre - specified post) slAll ++ post)) v ∧
+    setitemColl td (.tuple (pre ++ Ix.ell :: post)) isDict vb entries =
+      setitemColl td (.tuple (pre ++ List.replicate (td.bs.length - specified pre - specified post) slAll ++ post)) isDict vb entries ∧
+    setitem td (.single x) v = setitem td (.tuple [x]) v :=
+  ⟨setitem_ellipsis_reduce td pre post v hpre hpost hs, setitemColl_ellipsis_reduce td pre post isDict vb entries hpre hpost hs,
+   setitem_single td x v hx⟩
+
 /-! #### collection values: `td[idx] = dict / TensorDict` (`__setitem__`'s first branch, `Td.setitemColl`)
 
 `collPlan` is the batch handling (dict → `from_dict_instance`; equal batch; trailing batch → `expand`; otherwise batch-size
@@ -553,6 +567,15 @@ theorem src_rank (dims : Shape) (items : List Ix) (R : IndexResult) (h : index d
   rw [hsrc, ← walk_consumed items _ dims P hw]
   unfold srcCoord
   split <;> exact walkSrc_length _ P _
+
+/-- **TorchSpec never reads outside the tensor** (soundness of the trusted spec, proved, not only tested): for every index the
+spec accepts — positive-step slices of every start / stop sign, ints, `None`, Ellipsis, any number of index arrays and masks,
+negative index values — every coordinate of the result maps to a coordinate of the source tensor. Together with `src_rank` the
+coordinate map of `index` is a genuine selection of source elements. (Uses only the spec's own acceptance tests: the bounds
+check on gathered elements and the size-0 indexed-dim rule are exactly what is needed, no well-formedness of masks assumed.) -/
+theorem src_in_bounds (dims : Shape) (items : List Ix) (R : IndexResult) (h : index dims items = .ok R)
+    (c : List Nat) (hc : c ∈ coords R.shape) : R.src c ∈ coords dims :=
+  index_src_inB dims items R h c hc
 
 /-! ### dim names
 
